@@ -1,7 +1,203 @@
 import Driver.C01
+import Model.MuxPipe
+import Model.PoolLock
 namespace Driver.C06
-/-- C06 uses the same observation monitor as C01 (ids reserved only for unanswered requests, every call returns once) -/
+open Util
+
+/-- C06 uses the observation monitor of C01 for the black-box runs (ids reserved only for unanswered requests,
+    every call returns once), the fine receive pipeline `Model/MuxPipe.lean` for the `jr` scripts and the lock
+    model `Model/PoolLock.lean` for the `cf` / `cfk` scenarios -/
 abbrev S := Driver.C01.S
 def init : S := Driver.C01.init
-def step : S → List String → S × String := Driver.C01.step
+
+/-! ### `jr`: the journey of a response through the receive loop, with real callers -/
+
+structure JCall where
+  L : Nat
+  sent : Nat
+  racy : Bool
+
+structure JS where
+  st : MuxPipe.St
+  hl : Nat
+  cap : Nat
+  calls : List JCall          -- call i is calls[i-1]
+  cur : Option Nat            -- the call whose response frame is partly written
+  out : List String           -- reversed
+  term : Option Char
+  bad : Option String
+
+def JS.act (js : JS) (a : MuxPipe.Act) (what : String) : JS :=
+  if js.bad.isSome then js else
+  match MuxPipe.step js.st a with
+  | some st' => { js with st := st' }
+  | none => { js with bad := some s!"model-stuck:{what}" }
+
+def JS.fail (js : JS) (m : String) : JS := if js.bad.isSome then js else { js with bad := some m }
+
+/-- recv's final select: the arm that is ready (theorem C06_pipe_recv_never_stuck: one always is) -/
+def JS.handOver (js : JS) : JS :=
+  if js.bad.isSome then js else
+  match MuxPipe.step js.st .handResp with
+  | some st' => { js with st := st' }
+  | none => match MuxPipe.step js.st .handGone with
+    | some st' => { js with st := st' }
+    | none => match MuxPipe.step js.st .handCtx with
+      | some st' => { js with st := st' }
+      | none => { js with bad := some "model-stuck:hand-over" }
+
+def setCall (cs : List JCall) (i : Nat) (c : JCall) : List JCall := cs.set (i - 1) c
+
+/-- the server writes the next n bytes of the response frame of call i -/
+def JS.deliver (js : JS) (i n : Nat) (racy : Bool) : JS :=
+  match js.calls[i - 1]? with
+  | none => js.fail "bad-op"
+  | some c =>
+    let total := js.hl + c.L
+    let n := if racy then total - c.sent else n
+    let after := c.sent + n
+    if i = 0 ∨ n = 0 ∨ after > total ∨ (js.cur.isSome ∧ js.cur ≠ some i) then js.fail "bad-op" else
+    let js := if c.sent < js.hl ∧ js.hl ≤ after then js.act (.recvHeader i) "recvHeader" else js
+    let js := if after > js.hl ∧ after < total then js.act .recvBody "recvBody" else js
+    let js := if after = total then (js.act .recvBodyEnd "recvBodyEnd").handOver else js
+    { js with calls := setCall js.calls i { c with sent := after, racy := c.racy || racy },
+              cur := if after = total then none else some i }
+
+def waitingCalls (js : JS) : List Nat :=
+  (List.range js.calls.length).filterMap fun k =>
+    match js.st.m.pc (k + 1) with
+    | .waiting _ => some (k + 1)
+    | _ => none
+
+def JS.closeAll (js : JS) : JS :=
+  (waitingCalls js).foldl (fun js c => js.act (.mux (.connDone c)) "connDone") js
+
+def numTail (w : String) : Option Nat := (String.ofList (w.toList.drop 1)).toNat?
+
+def JS.step (js : JS) (w : String) : JS :=
+  if js.bad.isSome then js else
+  if js.term.isSome then js.fail "bad-op" else
+  match w.toList with
+  | 'q' :: _ =>
+    match numTail w with
+    | some L =>
+      let c := js.calls.length + 1
+      if c + 1 ≥ js.cap then js.fail "bad-op" else
+      let js := ((js.act (.mux (.acquire c c)) "acquire").act (.mux (.wrote c)) "wrote").act (.mux (.answer c 0 c)) "answer"
+      { js with calls := js.calls ++ [{ L := L, sent := 0, racy := false }] }
+    | none => js.fail "bad-op"
+  | 'd' :: _ =>
+    match (String.ofList (w.toList.drop 1)).splitOn "." with
+    | [a, b] => match a.toNat?, b.toNat? with
+      | some i, some n => js.deliver i n false
+      | _, _ => js.fail "bad-op"
+    | _ => js.fail "bad-op"
+  | 'r' :: _ =>
+    match numTail w with
+    | some i => js.deliver i 0 true
+    | none => js.fail "bad-op"
+  | 'c' :: _ =>
+    match numTail w with
+    | some i =>
+      if i = 0 ∨ i > js.calls.length then js.fail "bad-op" else
+      match js.st.m.pc i with
+      | .waiting _ => js.act (.mux (.cancel i)) "cancel"
+      | _ => js
+    | none => js.fail "bad-op"
+  | 'v' :: _ =>
+    if js.cur.isSome ∨ (numTail w).isNone then js.fail "bad-op" else (js.act .recvEvent "recvEvent").act .recvBodyEnd "recvBodyEnd"
+  | 'x' :: _ =>
+    match numTail w with
+    | some L =>
+      if js.cur.isSome then js.fail "bad-op" else
+      let js := js.act (.recvStray (js.calls.length + 1)) "recvStray"
+      let js := if L > 1 then js.act .recvBody "recvBody" else js
+      js.act .recvBodyEnd "recvBodyEnd"
+    | none => js.fail "bad-op"
+  | ['a'] => { js with out := s!"a={MuxPipe.held js.st js.calls.length}" :: js.out }
+  | ['k'] =>
+    let js := js.act (.mux .close) "close"
+    let js := match js.st.rcv with
+      | .stopped => js
+      | _ => js.act .recvFail "recvFail"
+    { js.closeAll with term := some 'k' }
+  | ['z'] =>
+    let js := js.act .recvFail "recvFail"
+    let js := js.act (.mux .close) "close"
+    { js.closeAll with term := some 'z' }
+  | _ => js.fail "bad-op"
+
+def JS.outcome (js : JS) (i : Nat) (c : JCall) : String :=
+  let l := match js.st.m.pc i with
+    | .done (.resp o _ _) => if o = i then "R" else "R!not-its-own-response"
+    | .done .ctxErr => "C"
+    | .done .connClosed => if js.term = some 'z' then "E" else "X"
+    | .done .timeout => "T"
+    | .done _ => "?"
+    | .waiting _ => "W"
+    | _ => "?"
+  if c.racy ∧ (l = "R" ∨ l = "C") then "A" else l
+
+def jrAnswer (proto wr tmo : String) (steps : List String) : String :=
+  match proto.toNat?, wr.toNat?, tmo.toNat? with
+  | some p, some _, some _ =>
+    if p < 2 ∨ p > 4 then "bad-op" else
+    let cap := if p ≤ 2 then 128 else 32768
+    let js0 : JS := { st := MuxPipe.init cap, hl := if p ≤ 2 then 8 else 9, cap := cap, calls := [], cur := none,
+                      out := [], term := none, bad := none }
+    let js := steps.foldl JS.step js0
+    match js.bad with
+    | some b => b
+    | none =>
+      let outs := (List.range js.calls.length).map fun k =>
+        match js.calls[k]? with
+        | some c => js.outcome (k + 1) c
+        | none => "?"
+      " ".intercalate (js.out.reverse ++ [";"] ++ outs)
+  | _, _, _ => "bad-op"
+
+/-! ### `cf` / `cfk`: closing over transports whose Close() reports an error -/
+
+def cfAnswer (kf : Bool) (ws : List String) : String :=
+  match ws with
+  | [proto, nconn, faults, inflight, late, act] =>
+    match proto.toNat?, nconn.toNat?, inflight.toNat? with
+    | some p, some n, some k =>
+      let fl := faults.toList
+      if p < 2 ∨ p > 4 ∨ n < 1 ∨ n > 4 ∨ fl.isEmpty ∨ k > 64 ∨ ¬ (["S", "P", "H", "R", "C"].contains act) ∨ (late = "1" ∧ n < 2)
+          ∨ (late ≠ "0" ∧ late ≠ "1") then "bad-op" else
+      let cerr : Nat → Bool := fun c => fl[(c - 1) % fl.length]? == some '1'
+      let isLate := late == "1"
+      let conns0 := (List.range (if isLate then n - 1 else n)).map (· + 1)
+      -- the goroutines, in the order of the canonical schedule
+      let action : List (List PoolLock.Instr) :=
+        if act = "R" then
+          [conns0.flatMap (fun c => [PoolLock.Instr.connError c]), (List.range n).flatMap (fun i => PoolLock.pConnectTail (n + 1 + i)), PoolLock.pClose]
+        else if act = "C" then
+          [[PoolLock.Instr.connClose 1], (if cerr 1 then PoolLock.pConnectTail (n + 1) else []), PoolLock.pClose]
+        else [PoolLock.pClose]
+      let lateT : List (List PoolLock.Instr) := if isLate then [PoolLock.pConnectTail n] else []
+      let mon : List PoolLock.Instr := PoolLock.pPick ++ PoolLock.pHandleError 1 ++ PoolLock.pClose
+      let progs := action ++ lateT ++ [mon]
+      let st0 := PoolLock.init conns0 (fun t => progs.getD t [])
+      let st := (List.range progs.length).foldl (fun st t => PoolLock.runThread cerr 10000 st t) st0
+      if (List.range progs.length).any (fun t => PoolLock.selfDeadlocked st t) then
+        (if isLate ∧ PoolLock.selfDeadlocked st action.length then "self-deadlock(connect>Conn.Close>HandleError)" else "self-deadlock")
+      else if (List.range progs.length).any (fun t => !(st.prog t).isEmpty) then "model-stuck"
+      else
+        let ntr := if act = "R" then 2 * n else if act = "C" ∧ cerr 1 then n + 1 else n
+        let closes := ",".intercalate ((List.range ntr).map fun i => toString (st.closes (i + 1)))
+        let pick := if st.closed ∨ st.conns.isEmpty then "nil" else "conn"
+        let _ := kf
+        s!"ret calls={k}/{k} closes={closes} pick={pick} size={st.conns.length} he=ret"
+    | _, _, _ => "bad-op"
+  | _ => "bad-op"
+
+def step (s : S) (ws : List String) : S × String :=
+  match ws with
+  | "jr" :: proto :: wr :: tmo :: steps => (s, jrAnswer proto wr tmo steps)
+  | "cf" :: rest => (s, cfAnswer false rest)
+  | "cfk" :: rest => (s, cfAnswer true rest)
+  | _ => Driver.C01.step s ws
+
 end Driver.C06
